@@ -269,6 +269,18 @@ class Check(FormulaCheck):
                 else:
                     self.expect('C18/CHOOSE:index-outside-yields-a-value', self.is_err(g), index=i, values=vals, got=g)
             rec.sample({'formula': f})
+        # the longest list the function takes (254 values): the last positions still address their own value
+        vals = list(range(1000, 1254))
+        for k, v in enumerate(vals):
+            self.e.bind(**{hx.varname(k, 'it'): v})
+        names = ','.join(hx.varname(k, 'it') for k in range(254))
+        for i in (1, 2, 127, 128, 252, 253, 254, 255, 256, 0, -1):
+            g = self.ev('CHOOSE(%d,%s)' % (i, names))
+            rec.nt(('choose254', i))
+            if 1 <= i <= 254:
+                self.expect('C18/CHOOSE:wrong-value:long-list', g == vals[i - 1], index=i, values='1000..1253', got=g)
+            else:
+                self.expect('C18/CHOOSE:index-outside-yields-a-value:long-list', self.is_err(g), index=i, values='1000..1253', got=g)
 
     def c_sentinels(self, spec, rec):
         import random
